@@ -29,6 +29,7 @@ type camPlan struct {
 	packets  int
 	gap      time.Duration
 	endAfter int // during streaming (step 6): act after this many packets
+	sdp      string // body of the DESCRIBE answer ("" = the clean H.264+AAC description)
 }
 
 var camSteps = []string{"connect", "OPTIONS", "DESCRIBE", "SETUP-video", "SETUP-audio", "PLAY", "streaming"}
@@ -188,7 +189,11 @@ func (c *fakeCam) serve() {
 		case "OPTIONS":
 			c.reply(200, "OK", cseq, map[string]string{"Public": "OPTIONS, DESCRIBE, SETUP, PLAY, TEARDOWN"}, "")
 		case "DESCRIBE":
-			c.reply(200, "OK", cseq, map[string]string{"Content-Type": "application/sdp", "Content-Base": m.URL + "/"}, sdpH264AAC)
+			body := sdpH264AAC
+			if c.plan.sdp != "" {
+				body = c.plan.sdp
+			}
+			c.reply(200, "OK", cseq, map[string]string{"Content-Type": "application/sdp", "Content-Base": m.URL + "/"}, body)
 		case "SETUP":
 			c.reply(200, "OK", cseq, map[string]string{"Transport": m.Header["transport"], "Session": "CAMSESSION1;timeout=60"}, "")
 		case "PLAY":
